@@ -451,7 +451,7 @@ PROPERTY = {
                     '(training flags, parameter and buffer tensors, trainability, cost specification, sampled coefficients, fused BatchNorms); switching the '
                     'specification and back restores the values; export twice leaves the same state.  The conversion inside export() is an assumed contract '
                     '(forces eval() on the model it traces and returns a new module).',
-        not_decided=['equality of repeated exports as networks, outputs before/after (needs the real fx conversion)',
+        not_decided=['equality of repeated exports as networks; outputs before / after export are compared only on the enumerated whole models (contracts/whole_pit.py, whole_supernet.py, whole_mps.py)',
                      'MPS / SuperNet: the eval-mode forward that convert() runs on the shared layers overwrites the sampled coefficients until the next '
                      'training forward (observed natively, see DESIGN.md section 5) - outside the assumed contract of convert()'],
         assumptions=['writes that only add non-observable keys (output_shape added to vars(layer) of fixed layers by the full_cost path) are not failed'],
